@@ -5,11 +5,20 @@ import "verif/internal/eng"
 func init() {
 	register(&Property{
 		ID: "C48",
-		Explanation: "Decides the structural necessary condition behind 'each member once': every method of index.AssociatedSet that enumerates members by walking one of the per-entry iterators of the index (MasterIndex.Values, Index.Values, indexMap.values yield one element per stored copy of a blob) guards its yield with a first-occurrence test against a local seen-set that is updated on every path before yielding; Len and Keys enumerate through All and inherit it. The rule reported the genuine defect in AssociatedSet.All (a blob stored in two packs was yielded twice, Len()==2 for a one-member set), which is fixed. Not decided: the overflow-set bookkeeping and Intersect/Sub value preservation.",
+		Explanation: "Decides the structural necessary condition behind 'each member once': every method of index.AssociatedSet that enumerates members by walking one of the per-entry iterators of the index (MasterIndex.Values, Index.Values, indexMap.values yield one element per stored copy of a blob) guards its yield with a first-occurrence test against a local seen-set that is updated on every path before yielding; Len and Keys enumerate through All and inherit it. The rule reported the genuine defect in AssociatedSet.All (a blob stored in two packs was yielded twice, Len()==2 for a one-member set), which is fixed; (slot-discipline) Get, Set, Delete and the enumeration agree on where a handle lives: the overflow map is consulted first and the index position is used only on its miss edge, a slot value[idx]/isSet[idx] is addressed only with the handle's own position and only behind idx != -1 and idx < len(value) (value and isSet are allocated with one length), Set always ends with the handle recorded (overflow update, or value stored and isSet=true), Delete with it removed (overflow delete, isSet=false, or no slot exists), Get reports a member only for an overflow hit or a set slot, and Get and the enumeration have no effects. Not decided: that Intersect/Sub preserve values, and the stability of index positions (MasterIndex.blobIndex).",
 		Assumptions: commonAssumptions,
 		Technique:   "static analysis: guard-and-update pattern on the CFG of range-over-func bodies (go/ssa)",
-		Run:         func(c *eng.Ctx) { ruleSetOverMultimap(c) },
+		Run: func(c *eng.Ctx) {
+			ruleSetOverMultimap(c)
+			ruleAssocSetSlots(c)
+		},
 		Controls: []Control{
+			{Name: "set-skips-overflow-lookup", File: "internal/repository/index/associated_data.go",
+				Old: "func (a *AssociatedSet[T]) Set(bh restic.BlobHandle, val T) {\n	if _, ok := a.overflow[bh]; ok {\n		a.overflow[bh] = val\n		return\n	}\n", New: "func (a *AssociatedSet[T]) Set(bh restic.BlobHandle, val T) {\n", Rule: "slot-discipline"},
+			{Name: "delete-keeps-slot-set", File: "internal/repository/index/associated_data.go",
+				Old: "	if idx < len(bt.value) && idx != -1 {\n		bt.isSet[idx] = false\n	}", New: "	if idx < len(bt.value) && idx != -1 {\n		var zero T\n		bt.value[idx] = zero\n	}", Rule: "slot-discipline"},
+			{Name: "get-ignores-isset", File: "internal/repository/index/associated_data.go",
+				Old: "	has := bt.isSet[idx]\n	if has {\n		return bt.value[idx], has\n	}", New: "	has := bt.isSet[idx]\n	if has || idx > 0 {\n		return bt.value[idx], true\n	}", Rule: "slot-discipline"},
 			{Name: "drop-seen-test", File: "internal/repository/index/associated_data.go",
 				Old: "			if reported[bh.Type][idx] {\n				// duplicate index entry of an already reported handle\n				continue\n			}\n", New: "", Rule: "set-over-multimap"},
 			{Name: "forget-to-mark-reported", File: "internal/repository/index/associated_data.go",
